@@ -86,6 +86,7 @@ fn main() {
         "C09" => dispatch::<props::c09::C09>(&cli),
         "C10" => dispatch::<props::c10::C10>(&cli),
         "C18" => dispatch::<props::c18::C18>(&cli),
+        "C13" => dispatch::<props::c13::C13>(&cli),
         "C16" => dispatch::<props::c16::C16>(&cli),
         other => {
             println!("INCONCLUSIVE {other}: no such check");
